@@ -258,6 +258,10 @@ def limit(ctx: Ctx) -> List[Ob]:
                 if not mentions:
                     continue
                 from_zero = (sl.lower is None or (isinstance(sl.lower, ast.Constant) and sl.lower.value == 0)) and sl.step is None
+                if isinstance(n.ctx, ast.Del) and sl.lower is not None and norm(sl.lower) == "max_results" and sl.upper is None and sl.step is None:
+                    # `del res[k:]` truncates to the first k
+                    obs.append(ctx.ob("LIMIT", props, f, f"del {norm(n)} keeps the first max_results", n, True))
+                    continue
                 if sl.upper is not None and norm(sl.upper) in ("max_results", "max_results or None") and from_zero:
                     ok = True  # (`x[:k or None]`: no limit -> everything)
                 elif sl.lower is not None and mentions_limit_(sl.lower):
@@ -282,6 +286,9 @@ def limit(ctx: Ctx) -> List[Ob]:
                 if v is None or (isinstance(v, (ast.List, ast.Tuple)) and not v.elts) or isinstance(v, ast.Constant):
                     continue
                 dep = mentions_limit(v)
+                if not dep and isinstance(v, ast.Name) and any(isinstance(d_, ast.Delete) and any(isinstance(t_, ast.Subscript) and norm(t_.value) == v.id and mentions_limit(t_.slice) for t_ in d_.targets)
+                                                             for d_ in iter_own(f.node)):
+                    dep = True  # truncated in place
                 if not dep and isinstance(v, ast.Name):
                     r = ctx.env.reaching(f, c.stmt, v.id)
                     if r is not None:
